@@ -19,7 +19,7 @@ def decode_rule(F, rep):
     calls = [n for n in tir.walk(root) if n.get("k") == "MethodCall" and (declared(n) or "").startswith("encoding_rs::Encoding::decode")]
     rep.ob("decode.single", len(calls) == 1, TRY_FROM, "decode-call", "expected exactly one encoding_rs decode call, found %d" % len(calls))
     # every string this function produces comes out of that decode: one MeleeString construction, inside the match on the decode result
-    ctors = [n for n in tir.walk(root) if n.get("k") == "Call" and (declared(n) or "") == "game::shift_jis::MeleeString"]
+    ctors = [n for n in tir.walk(root) if n.get("k") == "Call" and ((declared(n) or "") == "game::shift_jis::MeleeString" or (n.get("res") == "selfctor" and (n.get("ty") or "") == "game::shift_jis::MeleeString"))]
     inside = 0
     forms = result_form(root, calls[0]) if len(calls) == 1 else None
     if forms is not None:
@@ -91,6 +91,17 @@ def result_form(root, call):
         up = par.get(id(m))
         if up is not None and up.get("k") == "MethodCall" and up["method"] in ("ok_or", "ok_or_else") and strip(up["recv"]) is m and (up.get("ty") or "").startswith("std::result::Result"):
             return {"some": strip(m["args"][0])["body"], "some_kind": "Ok", "none_kind": "Err"}
+        return None
+    if m.get("k") == "MethodCall" and m["method"] == "map_or_else" and strip(m["recv"]) is call and len(m["args"]) == 2:
+        # decode(..).map_or_else(|| Err(..), |d| Ok(MeleeString(..)))
+        dflt, some = strip(m["args"][0]), strip(m["args"][1])
+        if dflt.get("k") == "Closure" and some.get("k") == "Closure" and len(some["params"]) == 1:
+            return {"some": some["body"], "some_kind": kind(some["body"]), "none_kind": kind(dflt["body"])}
+        return None
+    if m.get("k") == "MethodCall" and m["method"] == "map_or" and strip(m["recv"]) is call and len(m["args"]) == 2:
+        some = strip(m["args"][1])
+        if some.get("k") == "Closure" and len(some["params"]) == 1:
+            return {"some": some["body"], "some_kind": kind(some["body"]), "none_kind": kind(m["args"][0])}
         return None
     if m.get("k") in ("MethodCall",) and m["method"] in ("ok_or", "ok_or_else") and strip(m["recv"]) is call:
         # decode(..).ok_or(..)? followed by Ok(MeleeString(..))
